@@ -40,7 +40,7 @@ C = {
          "theorems at exact real arithmetic; sympy/np.linalg solve are oracles (that they return a solution of T H = S, and the effect of rounding / ill-conditioning, are checked numerically on the implementation)", T_HAND),
  "C16": ("Taps model mirrors lagrange_taps operation for operation (bit-exact correspondence); integer shift = unit tap proved for every order; every tap = textbook Lagrange weight proved for all odd orders 1..111 and every real fraction (integer-polynomial identities decided per order, lifted to R); interpolation theory for any distinct nodes (roots theorem, cardinal basis) gives: the constant-shift path reproduces every polynomial of degree <= order at interior samples for any real shift, taps sum to one, integer shift = displacement with ends held, zero shift = identity (all theorems at exact arithmetic); variable-shift path and the DataFrame wrapper by the oracle.", "7/C16",
          "np.correlate / einsum summation order and the edge padding are compared on the implementation (1e-11), not proved", T_HAND),
- "C17": ("Cascade and generator model for any carrier (bit-exact at binary64): filter state carried across blocks, any sequence of block requests = one request (samples and state); tied by bit-exact correspondence with alpha/pink/red generators on the recorded white stream.", "7/C17",
+ "C17": ("Cascade and generator model for any carrier (bit-exact at binary64): filter state carried across blocks, any sequence of block requests = one request (samples and state); each DF2T section proved equal to the direct-form difference equation y[n]=a0 x[n]+a1 x[n-1]-b1 y[n-1] with the carried state its memory (exact arithmetic); tied by bit-exact correspondence with alpha/pink/red generators on the recorded white stream.", "7/C17",
          "numpy Generator.normal and scipy lfilter are oracles whose contracts are validated each run", T_HAND),
  "C18": ("Hermitian construction of fftnoise proved as an index map for every length; the inverse DFT of the constructed spectrum proved exactly real (so `.real` discards nothing) and the magnitudes proved equal to the prescribed ones for every length; section DC gain fmax/fmin, Nyquist gain 1, pole inside the unit circle and the closed-form |H|^2 proved; coefficients tied bit-exactly; power-law fit swept analytically.", "7/C18",
          "PARTIAL: 'within about 1 dB of f^-alpha' is an approximation statement, swept with a 2 dB allowance on the interior of the band", T_HAND),
